@@ -262,12 +262,13 @@ Qed.
 
 (* ---- one step of the model follows the ordinary-list rule ---- *)
 
-Lemma step_raw_spec s o :
-  trigger_step s o = false ->
-  spec_ok (items s) (running s) o (items (fst (step_raw s o))) (snd (step_raw s o)) = true.
+Lemma step_simple_spec s o :
+  trigger_step s o = false -> (forall k c, o <> FilterDuring k c) ->
+  spec_simple (items s) (running s) o (items (fst (step_simple s o))) (snd (step_simple s o)) = true.
 Proof.
-  intros HT. destruct s as [l st run].
-  destruct o; cbn [step_raw spec_ok fst snd items running started] in *.
+  intros HT HF. destruct s as [l st run].
+  destruct o; cbn [step_simple spec_simple fst snd items running started] in *.
+  9:{ exfalso. eapply HF. reflexivity. }
   - (* AddFirst *) now rewrite tasks_eqb_refl, otask_eqb_refl.
   - (* AddLast *) now rewrite tasks_eqb_refl, otask_eqb_refl.
   - (* AddAfter *)
@@ -384,6 +385,18 @@ Proof.
   rewrite list_eqb_refl by apply otask_eqb_refl. reflexivity.
 Qed.
 
+Lemma step_raw_spec s o :
+  trigger_step s o = false ->
+  spec_ok (items s) (running s) o (items (fst (step_raw s o))) (snd (step_raw s o)) = true.
+Proof.
+  intros HT. destruct o; cbn [step_raw spec_ok];
+    try (apply step_simple_spec; [exact HT | intros k0 c0 E; discriminate]).
+  (* FilterDuring: the concurrent operation is a simple one on the filtered queue *)
+  apply (step_simple_spec (mkState (filter (fun x => mem_N (tid x) keep) (items s)) (started s) (running s)) (to_op c)).
+  - destruct c; reflexivity.
+  - intros k0 c0 E. destruct c; discriminate.
+Qed.
+
 Lemma step_fst s o : fst (step s o) = auto_pick (fst (step_raw s o)).
 Proof. unfold step. destruct (step_raw s o); reflexivity. Qed.
 Lemma step_snd s o : snd (step s o) = snd (step_raw s o).
@@ -431,7 +444,7 @@ Theorem success_removes_exactly_once l1 p l2 st h a t :
   items (fst (step (mkState (l1 ++ p :: l2) st (Some p)) (Return Success h a t)))
   = h ++ l1 ++ a ++ l2 ++ t.
 Proof.
-  intros H1. rewrite step_fst, auto_pick_items. cbn [step_raw fst items running apply_result].
+  intros H1. rewrite step_fst, auto_pick_items. cbn [step_raw step_simple fst items running apply_result].
   rewrite fold_add_after_present by auto.
   erewrite remove_some by (apply split_id_app; auto).
   cbn [snd]. rewrite fold_add_first, fold_add_last. now rewrite <- !app_assoc.
@@ -442,7 +455,7 @@ Theorem keep_keeps_position l1 p l2 st h a t :
   items (fst (step (mkState (l1 ++ p :: l2) st (Some p)) (Return Keep h a t)))
   = h ++ l1 ++ p :: a ++ l2 ++ t.
 Proof.
-  intros H1. rewrite step_fst, auto_pick_items. cbn [step_raw fst items running apply_result].
+  intros H1. rewrite step_fst, auto_pick_items. cbn [step_raw step_simple fst items running apply_result].
   rewrite fold_add_after_present by auto.
   rewrite fold_add_first, fold_add_last. rewrite <- !app_assoc. cbn [app]. now rewrite <- !app_assoc.
 Qed.
@@ -451,7 +464,7 @@ Theorem fail_repeat_keep_queue s p h a t stt :
   running s = Some p -> stt = Fail \/ stt = Repeat ->
   items (fst (step s (Return stt h a t))) = items s.
 Proof.
-  intros Hr Hs. rewrite step_fst, auto_pick_items. cbn [step_raw]. rewrite Hr.
+  intros Hr Hs. rewrite step_fst, auto_pick_items. cbn [step_raw step_simple]. rewrite Hr.
   destruct Hs; subst; reflexivity.
 Qed.
 
